@@ -59,7 +59,12 @@ GetDROK(e) == \A k \in 1..Len(e.getdr) : e.getdr[k][2] = (IF e.getdr[k][1] \in D
 VerKeys(e) == {e.snap.sizes[k].ver : k \in 1..Len(e.snap.sizes)}
 RevKeys(e, v) == {e.snap.sizes[k].rev : k \in {j \in 1..Len(e.snap.sizes) : e.snap.sizes[j].ver = v}}
 SizeEntry(sizes, v, rv, dr) == {sizes[k] : k \in {j \in 1..Len(sizes) : sizes[j].ver = v /\ sizes[j].rev = rv /\ sizes[j].dr = dr}}
+\* the size table is keyed by protocol version, then by Regional Parameters revision: a revision name used as a version key
+\* (or the reverse) would make that name resolve to its own table instead of falling back to the latest one
+ProtoVersions == {"1.0.0", "1.0.1", "1.0.2", "1.0.3", "1.0.4", "1.1.0", "latest"}
+RPRevisions == {"A", "B", "C", "RP002-1.0.0", "RP002-1.0.1", "RP002-1.0.2", "RP002-1.0.3", "latest"}
 LatestOK(e) ==
+  /\ VerKeys(e) \subseteq ProtoVersions /\ \A v \in VerKeys(e) : RevKeys(e, v) \subseteq RPRevisions
   /\ "latest" \in VerKeys(e) /\ "latest" \in RevKeys(e, "latest")
   /\ \A dr \in Defined(e) : SizeEntry(e.snap.sizes, "latest", "latest", dr) # {}
   /\ \A k \in 1..Len(e.maxpl) :
